@@ -50,12 +50,13 @@ def observe(calc, cfg):
     U = pb.Unit
     out = []
     dm = pb.DragModel(0.223, pb.TableG7)
+    # step and gravity: first step of a level vacuum shot from the bore line - measured BEFORE any other calculator is created here (a setting
+    # that lives on the class would be overwritten by the helper calculator below and look right)
+    shot = pb.Shot(pb.Weapon(U.Inch(0), U.Inch(0)), pb.Ammo(dm, U.FPS(2500)), atmo=pb.Vacuum())
+    tr, _ = _trace(calc, shot, 3.0)
     free_cfg = dict(cfg)
     free_cfg.update(RELAX)
     free = pb.Calculator(_config=free_cfg)
-    # step and gravity: first step of a level vacuum shot from the bore line
-    shot = pb.Shot(pb.Weapon(U.Inch(0), U.Inch(0)), pb.Ammo(dm, U.FPS(2500)), atmo=pb.Vacuum())
-    tr, _ = _trace(calc, shot, 3.0)
     adv = (tr[1].distance >> U.Foot) - (tr[0].distance >> U.Foot)
     ms = cfg['max_calc_step_size_feet']
     if not (ms / 4 < adv <= ms * (1 + 1e-9)):
@@ -509,6 +510,24 @@ def unknown(cell):
     return {'v': out[:3], 'n': 9, 'states': 1, 'transitions': 9, 'traces': 9, 'nt': name}
 
 
+def cap(cell):
+    """the iteration cap is the number of passes of the zero search: with an accuracy that cannot be met the search must give up after exactly
+    `cap` passes (and say so), for every cap"""
+    import py_ballisticcalc as pb
+    U = pb.Unit
+    k, look = cell
+    calc = pb.Calculator(_config={'cMaxIterations': k, 'cZeroFindingAccuracy': 1e-300})
+    shot = pb.Shot(pb.Weapon(U.Inch(2), U.Inch(0)), pb.Ammo(pb.DragModel(0.223, pb.TableG7), U.FPS(2600)), look_angle=U.Degree(look))
+    out = []
+    try:
+        z = calc.set_weapon_zero(shot, U.Yard(100))
+        out.append({'msg': f'iteration cap {k}, accuracy 1e-300 ft: zeroing returned {z >> U.MOA!r} MOA instead of giving up', 'key': None})
+    except pb.ZeroFindingError as e:
+        if e.iterations_count != k:
+            out.append({'msg': f'iteration cap {k} (look {look} deg): the zero search gave up after {e.iterations_count} iterations', 'key': None})
+    return {'v': out, 'n': 1, 'nt': cell, 'states': 1, 'transitions': 1, 'traces': 1}
+
+
 def golden_aliases(cell):
     """the alias table documents itself - so a slip IN the table (two aliases fused by a missing comma, an alias dropped) is invisible to a check that
     reads the table from the tree under test. Every alias the table had at the pinned commit must still resolve to the same unit."""
@@ -546,7 +565,7 @@ def golden_aliases(cell):
     return {'v': out, 'n': n, 'nt': 'golden', 'states': n, 'transitions': n, 'traces': n}
 
 
-PARTS = {'subset': subset, 'defaults': defaults, 'history': history, 'advance': advance, 'names': names, 'unknown': unknown, 'golden_aliases': golden_aliases}
+PARTS = {'subset': subset, 'defaults': defaults, 'history': history, 'advance': advance, 'names': names, 'unknown': unknown, 'golden_aliases': golden_aliases, 'cap': cap}
 
 
 def plan(tier):
@@ -559,7 +578,7 @@ def plan(tier):
     # small and large configured steps on fast and slow projectiles (the step must follow the setting over its whole range)
     adv += [[n, ms] for n in ('flat', 'hot', 'tail30', 'slow', 'pellet') for ms in ((0.02, 2.0) if tier == 'quick' else (0.05, 0.02, 0.005, 2.0, 5.0))]
     return [('subset', subs), ('defaults', ['Yard', 'Meter', 'Inch']), ('history', [2 if tier == 'quick' else 3]), ('advance', adv),
-            ('names', nm), ('unknown', UNKNOWN), ('golden_aliases', [0])]
+            ('names', nm), ('unknown', UNKNOWN), ('golden_aliases', [0]), ('cap', [[k, lk] for k in (1, 2, 3, 5, 8) for lk in (0.0, 10.0)])]
 
 
 def name_table_static():
